@@ -584,7 +584,7 @@ private:
 		}
 
 		bool sign = (rhs < 0);
-		uint64_t v = sign ? -rhs : rhs; // project to positve side of the projective reals
+		uint64_t v = sign ? (0ull - static_cast<uint64_t>(rhs)) : static_cast<uint64_t>(rhs); // project to positve side of the projective reals
 		uint16_t raw = 0;
 		if (v > 0x0800'0000) { // v > 134,217,728
 			raw = 0x7FFFu;  // +-maxpos
